@@ -255,6 +255,41 @@ func (f *Fixture) Run(op string) ([]string, string) {
 			}
 		}
 		return after, ""
+	case "executionAllowedHookDenied":
+		// a hook whose result violates the chain's policy (the first argument becomes negative): the check must be
+		// refused because of the policy, whatever this token was checked against before; without a policy
+		// (no argument keys) there is nothing to violate and the check passes
+		err := f.Inv.ExecutionAllowedWithArgsHook(f.Loader, func(ro args.ReadOnly) (*args.Args, error) {
+			na := args.New()
+			for k, v := range ro.Iter() {
+				if len(f.ArgKeys) > 0 && k == f.ArgKeys[0] {
+					if err := na.Add(k, int64(-5)); err != nil {
+						return nil, err
+					}
+					continue
+				}
+				if err := na.Add(k, v); err != nil {
+					return nil, err
+				}
+			}
+			return na, nil
+		})
+		switch {
+		case len(f.ArgKeys) == 0 && err != nil:
+			return nil, "ExecutionAllowedWithArgsHook (nothing to violate): " + err.Error()
+		case len(f.ArgKeys) > 0 && err == nil:
+			return nil, "ExecutionAllowedWithArgsHook allowed arguments that violate the policy"
+		case len(f.ArgKeys) > 0 && !errors.Is(err, invocation.ErrPolicyNotSatisfied):
+			return nil, "ExecutionAllowedWithArgsHook with violating arguments: " + err.Error()
+		}
+		return argKeysSorted(f.Inv.Arguments()), ""
+	case "executionAllowedHookClone":
+		// a hook that only looks: it hands back the writeable clone unchanged
+		err := f.Inv.ExecutionAllowedWithArgsHook(f.Loader, func(ro args.ReadOnly) (*args.Args, error) { return ro.WriteableClone(), nil })
+		if err != nil {
+			return nil, "ExecutionAllowedWithArgsHook(clone): " + err.Error()
+		}
+		return argKeysSorted(f.Inv.Arguments()), ""
 	case "executionAllowedMissing":
 		// the same token checked with a loader that has none of its proofs: must fail whatever happened before
 		if err := f.Inv.ExecutionAllowed(Loader{}); err == nil {
@@ -292,7 +327,8 @@ func (f *Fixture) Run(op string) ([]string, string) {
 	return nil, "unknown op " + op
 }
 
-var Ops = []string{"argsToIPLD", "argsString", "metaString", "argsIter", "metaIter", "executionAllowed", "seal", "executionAllowedHook", "executionAllowedMissing"}
+var Ops = []string{"argsToIPLD", "argsString", "metaString", "argsIter", "metaIter", "executionAllowed", "seal", "executionAllowedHook", "executionAllowedMissing",
+	"executionAllowedHookDenied", "executionAllowedHookClone"}
 
 // Concurrent runs every operation from `workers` goroutines on the SAME tokens and reports the first result
 // that differs from the one obtained when the operation ran alone, or a change of the observable key order.
